@@ -99,10 +99,14 @@ def handle (line : String) : String :=
         | some r => toHex r
         | none => "bad-op"
       | _, _ => "bad-op"
-    | "op" :: opS :: args =>
+    | "op" :: opS0 :: args =>
+      -- `EXP@6` = the instruction under `--smt-exp-by-const 6` (default 2)
+      let (opS, k) := match opS0.splitOn "@" with
+        | [n, ks] => (n, ks.toNat?.getD 2)
+        | _ => (opS0, 2)
       match parseOp? opS, args.mapM parseVal?, envs.mapM parseEnv? with
       | some op, some vs, some es =>
-        match execWord foldSimp {} op vs with
+        match execWord foldSimp { smtExpByConst := k } op vs with
         | .error e => s!"err {errName e}"
         | .ok (r, aux) =>
           let is := es.map mkInterp
